@@ -1,0 +1,80 @@
+//! Verification hooks. Only compiled with `--cfg deadpool_verif`.
+//!
+//! A *schedule point* is a call to [`point`] placed between two accesses of
+//! shared state, outside of every lock region. A verification harness installs
+//! a thread-local callback and thereby decides which thread continues at each
+//! point. Threads without a callback are not affected.
+use std::cell::RefCell;
+
+thread_local! {
+    static HOOK: RefCell<Option<Box<dyn Fn(&'static str)>>> = const { RefCell::new(None) };
+}
+
+/// Installs (or removes) the schedule point callback of the current thread.
+pub fn set_thread_hook(f: Option<Box<dyn Fn(&'static str)>>) {
+    HOOK.with(|h| *h.borrow_mut() = f);
+}
+
+/// A schedule point.
+pub fn point(id: &'static str) {
+    HOOK.with(|h| {
+        if let Some(f) = h.borrow().as_ref() {
+            f(id)
+        }
+    });
+}
+
+/// A schedule point which is reached when this value is dropped unless it
+/// has been disarmed.
+pub struct PointOnDrop(pub &'static str);
+
+impl PointOnDrop {
+    /// Consumes the value without reaching the schedule point.
+    pub fn disarm(self) {
+        std::mem::forget(self)
+    }
+}
+
+impl Drop for PointOnDrop {
+    fn drop(&mut self) {
+        point(self.0)
+    }
+}
+
+/// Snapshot of the internal state of a managed pool.
+#[derive(Clone, Copy, Debug, PartialEq, Eq)]
+pub struct ManagedSnapshot {
+    /// Permits available in the semaphore
+    pub permits: usize,
+    /// Semaphore closed?
+    pub closed: bool,
+    /// `Slots::size`
+    pub size: usize,
+    /// `Slots::max_size`
+    pub max_size: usize,
+    /// Length of the idle queue
+    pub idle_len: usize,
+    /// `PoolInner::users`
+    pub users: usize,
+}
+
+/// Snapshot of the internal state of an unmanaged pool.
+#[derive(Clone, Copy, Debug, PartialEq, Eq)]
+pub struct UnmanagedSnapshot {
+    /// Permits available in the semaphore guarding the queue
+    pub permits: usize,
+    /// Permits available in the semaphore guarding the size
+    pub size_permits: usize,
+    /// Semaphore closed?
+    pub closed: bool,
+    /// Size semaphore closed?
+    pub size_closed: bool,
+    /// `PoolInner::size`
+    pub size: usize,
+    /// `PoolInner::available`
+    pub available: isize,
+    /// Length of the queue
+    pub queue_len: usize,
+    /// `PoolInner::config.max_size`
+    pub max_size: usize,
+}
